@@ -12,7 +12,7 @@ CFGS = ['37:3:2:1:1', '100:8:3:2:4', '120:12:2:3:4', '200:8:4:2:2', '26:1:1:1:1'
 def run(chk):
     exe = vlib.build_harness('release')
     res = vlib.tlc('MC_Codec', cfg='MC_Codec.cfg' if chk.quick else 'MC_Codec_thorough.cfg', workers=8, xss='256m',
-                   timeout=3000, tag='MC_Codec')
+                   timeout=3000, tag='MC_Codec', xmx='4g' if chk.quick else '12g')
     vlib.expect_mc_ok(chk, res, 'MC_Codec')
     okm = cc.replay_model_behaviours(chk, exe, 40 if chk.quick else 600)
     if chk.quick:
